@@ -614,7 +614,13 @@ func ruleCommitFollower() *Rule {
 			if len(out) == 0 {
 				out = append(out, missing(id, "store to Raft.commitIndex in (*Raft).AppendEntries")...)
 			}
-			out = append(out, sendToEnd(p, id)...)
+			ownLog := false
+			for _, o := range a.SortedObs() {
+				if f := o.Extra["form"]; f == "r.log.LastIndex()" || f == "r.log.NextIndex()-1" {
+					ownLog = true
+				}
+			}
+			out = append(out, sendToEnd(p, id, ownLog)...)
 			return out
 		},
 	}
@@ -659,7 +665,7 @@ func minForm(p *Program, f *Frame, v ssa.Value) string {
 }
 
 // sendToEnd: the sender's request carries LeaderCommit = r.commitIndex and entries up to NextIndex().
-func sendToEnd(p *Program, id string) []Obligation {
+func sendToEnd(p *Program, id string, followerBoundsByOwnLog bool) []Obligation {
 	root := p.Func("(*Raft).sendAppendEntries")
 	lc := p.Field("AppendEntriesRequest.LeaderCommit")
 	if root == nil || lc == nil {
@@ -692,10 +698,74 @@ func sendToEnd(p *Program, id string) []Obligation {
 		return missing(id, "AppendEntriesRequest.LeaderCommit in (*Raft).sendAppendEntries")
 	}
 	ob := Obligation{Rule: id, Construct: "entries loop bound in (*Raft).sendAppendEntries", Pos: p.Pos(root.Pos())}
-	if loopToEnd {
-		ob.Verdict, ob.Detail = Discharged, "entries are collected up to r.log.NextIndex()"
+	if !followerBoundsByOwnLog {
+		ob.Verdict, ob.Detail = Discharged, "the follower bounds its commit index by the entries of the request itself (prev+len(entries)), so a request may stop short of the leader's log end"
+		return append(out, ob)
+	}
+	_ = loopToEnd
+	// The follower clamps to the end of ITS log, so everything in its log up to LeaderCommit must have been compared
+	// with the leader's: the request must carry the leader's log through its end. Decided on the sender: when the
+	// request's Entries field is filled, the index the collecting loop stopped at is not below r.log.NextIndex().
+	var loopIdx []string
+	entriesFld := p.Field("AppendEntriesRequest.Entries")
+	p.discover(root, func(a *Analysis, f *Frame, in ssa.Instruction) {
+		if iface, m, c := invokeOf(in); iface == "Log" && m == "GetEntry" && f.Parent == nil {
+			if _, isPhi := stripConv(c.Args[0]).(*ssa.Phi); isPhi {
+				s := p.Canon(f, c.Args[0]).S
+				for _, x := range loopIdx {
+					if x == s {
+						return
+					}
+				}
+				loopIdx = append(loopIdx, s)
+			}
+		}
+	})
+	if len(loopIdx) == 0 || entriesFld == nil {
+		ob.Verdict, ob.Detail = Undecided, "no loop reading the log entry by entry was found in sendAppendEntries: with Min(LeaderCommit, LastIndex()) on the follower, a request that stops short of the leader's log end could commit unverified entries, and the rule cannot tell how far the request reaches"
+		return append(out, ob)
+	}
+	var atoms []*Atom
+	for _, g := range loopIdx {
+		atoms = append(atoms, CmpAtom("idx("+g+")?logEnd", g, "r.log.NextIndex()"))
+	}
+	nEnd := len(atoms)
+	// the loop may also stop at the snapshot boundary; that exit is excluded by the snapshot fall-back taken before
+	// (nextIndex > lastIncludedIndex, and the index only grows)
+	atoms = append(atoms, CmpAtom("nextIndex?lastInclIdx", "r.followers[p0].nextIndex", "r.lastIncludedIndex"))
+	for _, g := range loopIdx {
+		atoms = append(atoms, CmpAtom("idx("+g+")?lastInclIdx", g, "r.lastIncludedIndex"))
+	}
+	sp := NewSpace(atoms...)
+	a := NewAnalysis(p, sp)
+	a.Hook = func(a *Analysis, f *Frame, in ssa.Instruction, st State) State {
+		if s, fld := storeField(in); s != nil && fld == entriesFld && f.Parent == nil {
+			a.Observe("fill", f, in, st)
+		}
+		return st
+	}
+	a.Run(root, nil)
+	o := a.Obs["fill"]
+	if o == nil {
+		ob.Verdict, ob.Detail = Undecided, "the store of AppendEntriesRequest.Entries was not found in sendAppendEntries"
+		return append(out, ob)
+	}
+	ob.Pos = o.Pos
+	bad := sp.Where(o.State, func(pt int) bool {
+		for i := 0; i < nEnd; i++ {
+			if sp.Val(pt, i) != LT {
+				return false
+			}
+		}
+		return true
+	})
+	if bad.IsEmpty() {
+		ob.Verdict, ob.Detail = Discharged, "when the request is built the collecting loop has reached r.log.NextIndex(): the request carries the leader's log through its end"
 	} else {
-		ob.Verdict, ob.Detail = Undecided, "no loop bounded by r.log.NextIndex() found: with Min(LeaderCommit, LastIndex()) on the follower, a request that stops short of the leader's log end could commit unverified entries"
+		ob.Verdict = Violated
+		ob.Detail = "the request can be built while the index the collecting loop stopped at is still below r.log.NextIndex(): the request stops short of the leader's log end while LeaderCommit is the leader's full commit index, " +
+			"and the follower clamps its commit index to the end of its OWN log (Min(LeaderCommit, LastIndex())), so entries in the follower's log beyond the request that were never compared with the leader's can be committed"
+		ob.Facts = append(ob.Facts, sp.Project(bad, 0)...)
 	}
 	return append(out, ob)
 }
